@@ -20,7 +20,8 @@ def natLt (s : String) (bound : Nat) : Option Nat :=
 def parsePqs (s : String) : Option (List Nat) :=
   if s = "-" then some [] else (s.splitOn "+").mapM (fun t => natLt t 1000)
 
-/-- a seg token; the pqs field describes empty-PQ meta entries (store), not the struct's AllPQIDs -/
+/-- a seg token; the pqs field describes empty-PQ meta entries (store) and the AllPQIDs of the segment's
+.sfm file, not the AllPQIDs of the struct read from segmeta.json -/
 def parseSeg (s : String) : Option (Meta × List Nat) :=
   match s.splitOn ":" with
   | [k, kd, lt, sz, og, pq] =>
@@ -92,7 +93,9 @@ def retInt (args : List String) : String :=
       let ms := segs.map (·.1)
       let ks := ms.map (·.key)
       let s0 : Store := { blob := ks, files := ks, memMeta := ks,
-                          pqMeta := segs.flatMap (fun p => p.2.map (fun q => (q, p.1.key))), segmetaJson := ms }
+                          pqMeta := segs.flatMap (fun p => p.2.map (fun q => (q, p.1.key))), segmetaJson := ms,
+                          -- rotation records the pqids in the segment's .sfm file
+                          sfmPq := segs.flatMap (fun p => p.2.map (fun q => (q, p.1.key))) }
       let s1 := passCut deleteOrder now hrs s0 cut
       let s2 := pass deleteOrder now hrs s1
       s!"blob={showKeys s2.blob} files={showKeys s2.files} mem={showKeys s2.memMeta} pq={showPq s2.pqMeta} sm={showKeys (s2.segmetaJson.map (·.key))}"
